@@ -114,12 +114,17 @@ def _d8(hexdigest):
     return int(hexdigest[:16], 16)
 
 
-def run_chunk(args):
+def run_chunk(args, stop_at=None):
+    """Runs seed indices lo..hi-1 in this (freshly forked, pristine) process.
+    stop_at=(i, j): stop right after concrete run j of seed index i and return
+    (verdict of that run, digest, everything executed before it) instead."""
     prop, tier, verif_seed, lo, hi = args
     import props
+    import execute
     faulthandler.enable()
     spec = props.PROPS[prop]
     agg = Agg()
+    agg.chunk_lo = lo
     for i in range(lo, hi):
         s = run_seed(verif_seed, prop, i)
         rng = random.Random(s)
@@ -130,7 +135,13 @@ def run_chunk(args):
             agg.base_scenarios += 1
             for j, sc in enumerate(concrete):
                 xstats = {}
+                hist_len = len(execute.EXEC_LOG)
                 tr, v = spec.evaluate(sc, xstats=xstats, xrng=rng)
+                if stop_at is not None and (i, j) == tuple(stop_at):
+                    return {'violations': jsonable(v['violations']),
+                            'digest': tr.digest(),
+                            'history': list(execute.EXEC_LOG[:hist_len]),
+                            'scenario': sc}
                 agg.evaluations += 1
                 dg = tr.digest()
                 agg.all_digests.add(_d8(dg))
@@ -167,7 +178,7 @@ def run_chunk(args):
                 agg.rounds += len(tr.rounds)
                 agg.xsolves += xstats.get('solves', 0)
                 for viol in v['violations']:
-                    agg.violations.append((i, j, jsonable(viol), sc))
+                    agg.violations.append((i, j, jsonable(viol), sc, lo))
                 if len(agg.samples) < 3 and (v['nontrivial'] or i == lo):
                     agg.samples.append({'seed_index': i, 'scenario': sc,
                                         'digest': dg,
@@ -181,41 +192,140 @@ def run_chunk(args):
     return agg
 
 
+def _preimport():
+    """The parent imports the package (pristine module state) and never
+    executes repository code itself: every chunk, and every confirming /
+    minimising evaluation, runs in a child forked from this pristine state, so
+    what a run sees depends only on what ran before it in the same chunk."""
+    import props      # noqa: F401
+    try:
+        import matchingproblems.solver     # noqa: F401
+        import matchingproblems.generator  # noqa: F401
+    except Exception:
+        pass
+
+
+def _child(conn, fn, args):
+    try:
+        try:
+            faulthandler.dump_traceback_later(3000, exit=True)
+        except Exception:
+            pass
+        res = ('ok', fn(*args))
+    except BaseException:
+        res = ('err', traceback.format_exc()[-3000:])
+    try:
+        conn.send(res)
+    finally:
+        conn.close()
+        os._exit(0)
+
+
+def in_fresh_fork(fn, *args, timeout=3300):
+    """fn(*args) in a child forked from the pristine parent."""
+    ctx = multiprocessing.get_context('fork')
+    rx, tx = ctx.Pipe(False)
+    p = ctx.Process(target=_child, args=(tx, fn, args))
+    p.start()
+    tx.close()
+    try:
+        if rx.poll(timeout):
+            kind, val = rx.recv()
+        else:
+            kind, val = 'err', 'child timed out after %ss' % timeout
+    except EOFError:
+        kind, val = 'err', 'child died without answering'
+    finally:
+        if p.is_alive() and not rx.poll(0):
+            p.kill()
+        p.join(30)
+    if kind == 'err':
+        raise HarnessError('isolated child failed: %s' % val)
+    return val
+
+
+CHUNK = {'C14': 10, 'C15': 25, 'C16': 100}
+
+
 def run_batch(prop, tier, verif_seed, n, workers=None, chunk=None):
+    from multiprocessing.connection import wait
     workers = workers or int(os.environ.get('VERIF_WORKERS', '0')) or \
         min(16, os.cpu_count() or 1)
-    chunk = chunk or max(10, min(250, n // (workers * 4) or 1))
+    # the chunk size is part of the schedule (process history): it must not
+    # depend on the number of workers
+    chunk = chunk or CHUNK.get(prop, 100)
     tasks = [(prop, tier, verif_seed, lo, min(n, lo + chunk))
              for lo in range(0, n, chunk)]
-    total = Agg()
-    if workers == 1:
-        for t in tasks:
-            total.merge(run_chunk(t))
-        return total
+    _preimport()
     ctx = multiprocessing.get_context('fork')
-    with cf.ProcessPoolExecutor(max_workers=workers, mp_context=ctx) as ex:
-        for agg in ex.map(run_chunk, tasks):
-            total.merge(agg)
+    results = [None] * len(tasks)
+    pending = list(enumerate(tasks))
+    running = {}
+    while pending or running:
+        while pending and len(running) < workers:
+            idx, task = pending.pop(0)
+            rx, tx = ctx.Pipe(False)
+            p = ctx.Process(target=_child, args=(tx, run_chunk, (task,)))
+            p.start()
+            tx.close()
+            running[idx] = (p, rx)
+        ready = wait([rx for _, rx in running.values()], timeout=3400)
+        if not ready:
+            for idx, (p, rx) in running.items():
+                p.kill()
+                results[idx] = ('err', 'chunk timed out')
+            running = {}
+            continue
+        for idx in list(running):
+            p, rx = running[idx]
+            if rx in ready:
+                try:
+                    results[idx] = rx.recv()
+                except EOFError:
+                    results[idx] = ('err', 'worker died (chunk %r)'
+                                    % (tasks[idx],))
+                p.join(30)
+                del running[idx]
+    total = Agg()
+    for idx, (kind, val) in enumerate(results):
+        if kind == 'ok':
+            total.merge(val)
+        else:
+            total.harness.append((tasks[idx][3], 'chunk failed: %s' % val))
     return total
 
 
 # ---------------------------------------------------------------------------
 # minimisation and replay
 # ---------------------------------------------------------------------------
-def has_signature(spec, sc, sig):
+def _eval_with_history(prop, history, sc):
+    import props
+    import execute
+    spec = props.PROPS[prop]
+    for h in history:
+        try:
+            execute.run(h)
+        except BaseException:
+            pass
+    tr, v = spec.evaluate(sc)
+    return {'violations': jsonable(v['violations']), 'digest': tr.digest()}
+
+
+def has_signature(spec, sc, sig, history=()):
+    """Evaluates sc after `history` in a child forked from the pristine
+    parent.  Returns (digest, violation) if the signature shows, else None."""
     try:
-        tr, v = spec.evaluate(sc)
+        r = in_fresh_fork(_eval_with_history, spec.prop, list(history), sc,
+                          timeout=900)
     except HarnessError:
         return None
-    except Exception:
-        return None
-    for viol in v['violations']:
+    for viol in r['violations']:
         if signature(viol) == sig:
-            return tr, viol
+            return r['digest'], viol
     return None
 
 
-def minimise(spec, sc, sig, budget=400):
+def minimise(spec, sc, sig, budget=400, history=()):
     cur = sc
     spent = 0
     improved = True
@@ -225,14 +335,40 @@ def minimise(spec, sc, sig, budget=400):
             spent += 1
             if spent > budget:
                 break
-            if has_signature(spec, cand, sig) is not None:
+            if has_signature(spec, cand, sig, history) is not None:
                 cur = cand
                 improved = True
                 break
     return cur, spent
 
 
-def write_replay(prop, sc, sig, digest, detail, tag='min'):
+def minimise_history(spec, sc, sig, history, budget=80):
+    """ddmin over the list of scenarios executed earlier in the same process
+    (the part of the schedule that is process history)."""
+    cur = list(history)
+    n = 2
+    spent = 0
+    while len(cur) >= 1 and spent < budget:
+        size = max(1, len(cur) // n)
+        reduced = False
+        for start in range(0, len(cur), size):
+            cand = cur[:start] + cur[start + size:]
+            spent += 1
+            if has_signature(spec, sc, sig, cand) is not None:
+                cur = cand
+                n = max(n - 1, 2)
+                reduced = True
+                break
+            if spent >= budget:
+                break
+        if not reduced:
+            if size == 1:
+                break
+            n = min(len(cur), n * 2)
+    return cur, spent
+
+
+def write_replay(prop, sc, sig, digest, detail, tag='min', history=()):
     os.makedirs(os.path.join(OUT, 'replays'), exist_ok=True)
     h = hashlib.sha256(sig.encode()).hexdigest()[:10]
     path = os.path.join(OUT, 'replays', '%s-%s.json' % (prop, h))
@@ -240,6 +376,11 @@ def write_replay(prop, sc, sig, digest, detail, tag='min'):
            'detail': jsonable(detail), 'scenario': sc}
     if sig.startswith('non-termination'):
         doc['wall_cap_s'] = 5.0
+    if history:
+        doc['history'] = list(history)
+        doc['history_note'] = ('scenarios executed earlier in the same '
+                               'process; the violation needs them (state '
+                               'kept by the package between calls)')
     if isinstance(sc.get('inst'), dict):
         import instances
         doc['instance_text_for_readers'] = instances.render(sc['inst'])
@@ -255,9 +396,14 @@ def replay(prop, path):
     with open(path) as f:
         doc = json.load(f)
     sc = doc['scenario']
+    import execute
     if doc.get('wall_cap_s'):
-        import execute
         execute.WALL_CAP = float(doc['wall_cap_s'])
+    for h in doc.get('history', []):
+        try:
+            execute.run(h)
+        except BaseException:
+            pass
     tr, v = spec.evaluate(sc)
     sigs = [signature(x) for x in v['violations']]
     rep = doc['signature'] in sigs
@@ -343,8 +489,8 @@ def check(prop, tier, verif_seed, n=None, workers=None, out=sys.stdout):
     open_sigs = dict((k['signature'], k) for k in known
                      if k.get('status') == 'open')
     by_sig = {}
-    for i, j, viol, sc in agg.violations:
-        by_sig.setdefault(signature(viol), []).append((i, j, viol, sc))
+    for i, j, viol, sc, lo in agg.violations:
+        by_sig.setdefault(signature(viol), []).append((i, j, viol, sc, lo))
     exit_code = 0
     n_new = 0
     for sig in sorted(by_sig):
@@ -355,7 +501,7 @@ def check(prop, tier, verif_seed, n=None, workers=None, out=sys.stdout):
                 file=out)
             continue
         n_new += 1
-        i, j, viol, sc = hits[0]
+        i, j, viol, sc, lo = hits[0]
         budget = spec.min_budget.get(tier, 300)
         if sig.startswith('non-termination'):
             # every confirming run costs a full wall cap: shorten both
@@ -363,18 +509,42 @@ def check(prop, tier, verif_seed, n=None, workers=None, out=sys.stdout):
             execute.WALL_CAP = min(execute.WALL_CAP, 5.0)
             os.environ['VERIF_WALL_CAP'] = str(execute.WALL_CAP)
             budget = 25
-        small, spent = minimise(spec, sc, sig, budget=budget)
-        got = has_signature(spec, small, sig)
+        history = []
+        got = has_signature(spec, sc, sig)
+        if got is None:
+            # not reproducible on its own: the run may depend on what the
+            # same process executed before it (state kept by the package
+            # between calls).  Re-run the chunk prefix in a pristine child.
+            chunk = CHUNK.get(prop, 100)
+            try:
+                r = in_fresh_fork(run_chunk, (prop, tier, verif_seed, lo,
+                                              lo + chunk), (i, j))
+            except HarnessError as e:
+                r = {'violations': [], 'history': [], 'err': str(e)}
+            if not isinstance(r, dict) or sig not in [
+                    signature(x) for x in r.get('violations', [])]:
+                print('HARNESS: violation %s of seed index %d did not '
+                      'reproduce, neither alone nor after its chunk prefix'
+                      % (sig, i), file=out)
+                exit_code = max(exit_code, 2)
+                continue
+            history, hspent = minimise_history(spec, sc, sig, r['history'])
+            print('  %s needs process history: %d earlier scenario(s) after '
+                  'minimisation (%d before)' % (sig, len(history),
+                                                len(r['history'])), file=out)
+        small, spent = minimise(spec, sc, sig, budget=budget,
+                                history=history)
+        got = has_signature(spec, small, sig, history)
         if got is None:
             small = sc
-            got = has_signature(spec, sc, sig)
+            got = has_signature(spec, sc, sig, history)
         if got is None:
             print('HARNESS: violation %s of seed index %d did not reproduce '
-                  'in-process' % (sig, i), file=out)
+                  'in an isolated child' % (sig, i), file=out)
             exit_code = max(exit_code, 2)
             continue
-        tr, viol2 = got
-        path = write_replay(prop, small, sig, tr.digest(), viol2[2])
+        dg, viol2 = got
+        path = write_replay(prop, small, sig, dg, viol2[2], history=history)
         rc, text = replay_in_fresh_interpreter(prop, path)
         if rc != 1:
             print('HARNESS: replay %s did not reproduce in a fresh '
